@@ -258,7 +258,7 @@ Qed.
 
 Lemma fdir_verify_file_len_spec f v : flag (cf_large (h_conf (fd_hdr f))) ->
   fdir_verify_file_len f v =
-  if (if cf_large (h_conf (fd_hdr f)) =? 1 then v >? 2 ^ 64 else v >? 2 ^ 32) then Err EValue else Ok tt.
+  if (if cf_large (h_conf (fd_hdr f)) =? 1 then v >? 2 ^ 64 - 1 else v >? 2 ^ 32 - 1) then Err EValue else Ok tt.
 Proof.
   intros [L | L]; unfold fdir_verify_file_len, hdr_large_file, FILE_LARGE; rewrite L; cbn [Z.eqb Pos.eqb andb negb];
     match goal with |- context [?a >? ?b] => destruct (a >? b) end; reflexivity.
